@@ -33,6 +33,13 @@ impl Group for C11Sim {
             c("world perm|vh 0 g 0|rv 0|scp 0 0|restart|scp 0 1|cpr 0 g|restart|sh 0"),
             // multi-entry allowlist removals
             c("al add gg|al rm gx|restart|al add x|al rm ggd|restart|al rm g2g"),
+            // every channel entry point that changes state: phase-1 variants, recovery / legacy signing, activation
+            c("vh1 0 g 0|restart|rv 0|scp1 0 0|restart|scp1 0 1|cpr 0 g|shr|restart|vh 0 g 1"),
+            c("vh 0 g 0|rv 0|shx 0 g|restart|vh1 0 g 1"),
+            c("world fresh|act|vh1 0 g 0|restart|act|restart|vh 0 g 1|rv 0"),
+            c("world fresh|vh 0 g 0|act|restart|scp 0 0"),
+            // a full channel map
+            c("newch 1|newch 2|newch 3|newch 4|restart|newch 4|forget 2|newch 4|restart|newch 5"),
             // closing through either entry point must be durable
             c("vh 0 g 0|rv 0|scp 0 0|scp 0 0|cpr 0 g|mc1 b|mc1 g|restart|vh 0 g 3"),
             c("vh 0 g 0|rv 0|scp 0 0|scp 0 0|cpr 0 g|mc g|restart|vh 0 g 3"),
@@ -45,15 +52,23 @@ impl Group for C11Sim {
             if rng.chance(1, 6) { ops[i] = "restart".to_string(); }
         }
         if rng.chance(1, 3) { ops.insert(0, "world perm".to_string()); }
+        else if rng.chance(1, 5) {
+            // a channel whose initial commitment is not yet validated: validate (either entry point), activate
+            let mut pre = vec!["world fresh".to_string()];
+            if rng.chance(4, 5) { pre.push(format!("vh{} 0 g 0", if rng.chance(1, 2) { "1" } else { "" })); }
+            if rng.chance(1, 3) { pre.push("restart".to_string()); }
+            if rng.chance(4, 5) { pre.push("act".to_string()); }
+            for (i, o) in pre.into_iter().enumerate() { ops.insert(i, o); }
+        }
         ops
     }
     fn exec_case(&self, ops: &[String]) -> CaseOut {
         let mut co = CaseOut::default();
-        let mut sim = Sim::new_with(ops.first().map(|o| o == "world perm").unwrap_or(false));
+        let mut sim = Sim::new_world(ops.first().map(|o| o.as_str()).unwrap_or(""));
         let mut kinds_changed = std::collections::BTreeSet::new();
         let mut n_changed = 0;
         for (i, op) in ops.iter().enumerate() {
-            if op == "world perm" { co.out.push("ok".into()); continue; }
+            if op.starts_with("world ") { co.out.push("ok".into()); continue; }
             let before_view = view(&sim.node(), true);
             let (out, _pending) = exec_op(&mut sim, op);
             let kind = op.split(' ').next().unwrap_or("");
